@@ -23,19 +23,19 @@ If(c, name) == IF c THEN {} ELSE {name}
 NULLNS == "C10-null-namespace-lost"
 DECDUP == "C10-decimal-fixed-duplicate-keys"
 DevIds == {NULLNS, DECDUP} \cap KnownIds
-DevSets == (SUBSET DevIds) \ {{}}
+
+(* Representation noise, never compared: the crate keeps the parameters of a decimal a second time as
+   attributes "precision"/"scale" of the inner fixed; the M-term has one place for them. *)
+Nz(x) == DropDecimalAttrs(x)
 
 (* what the in-memory schema p looks like after the deviant writer and a correct reader *)
-Dev(D, p) ==
-  LET a == IF DECDUP \in D THEN DropDecimalAttrs(p) ELSE p IN
-  IF NULLNS \in D THEN LoseNullNs(a, <<>>) ELSE a
+DevSets == IF NULLNS \in DevIds THEN {{NULLNS}} ELSE {}
+Dev(D, p) == IF NULLNS \in D THEN LoseNullNs(Nz(p), <<>>) ELSE Nz(p)
+Same(a, b) == MEq(Nz(a), Nz(b))
 
 Smallest(Ds) == CHOOSE D \in Ds : \A X \in Ds : Cardinality(D) <= Cardinality(X)
 Tags(Ds, clause) == IF Ds = {} THEN {} ELSE {d \o "|" \o clause : d \in Smallest(Ds)}
-(* under DECDUP the precision/scale ATTRIBUTES of a fixed inside a decimal are outside the comparison on
-   both sides (the re-read schema gains "scale": 0 there when the scale was left to its default) *)
-Norm(D, x) == IF DECDUP \in D THEN DropDecimalAttrs(x) ELSE x
-ExplainM(obs, p) == {D \in DevSets : MEq(Norm(D, obs), Dev(D, p))}
+ExplainM(obs, p) == {D \in DevSets : MEq(Nz(obs), Dev(D, p))}
 
 (* names defined / referenced by an M-term (for "the lost namespace makes a reference dangle") *)
 RECURSIVE DefNamesM(_), RefNamesM(_)
@@ -74,24 +74,24 @@ Judge(e) ==
       dupOk == e.scan2_ok /\ NoDupKeys(e.tree2)
       dupKnown == e.scan2_ok /\ ~dupOk /\ DECDUP \in DevIds /\ OnlyDecimalDups(e.tree2)
       \* (b) the written JSON, read by the reference reader, is the schema that was in memory
-      denOk == e.scan2_ok /\ MEq(m2, p1)
+      denOk == e.scan2_ok /\ Same(m2, p1)
       denDs == IF denOk \/ ~e.scan2_ok THEN {} ELSE ExplainM(m2, p1)
       \* (c) the crate's own re-read
       reKnown == ~e.parse2_ok /\ BreaksNames(p1)
-      sameOk == e.parse2_ok /\ MEq(e.proj2, p1)
+      sameOk == e.parse2_ok /\ Same(e.proj2, p1)
       sameDs == IF sameOk \/ ~e.parse2_ok THEN {} ELSE ExplainM(e.proj2, p1)
-      \* a different text is explained exactly when a different re-read schema is
-      textKnown == e.parse2_ok /\ ~e.text3_same /\ sameDs # {}
+      \* a different text is explained when a different re-read schema is, or by the duplicated decimal keys
+      \* (the re-read picks the defaulted "scale": 0 up as one more attribute and writes it twice)
+      textKnown == e.parse2_ok /\ ~e.text3_same /\ (sameDs # {} \/ dupKnown)
       \* (d) container header
       hm == IF e.hdr_scan_ok THEN Meaning(e.hdr_tree) ELSE [m |-> "invalid"]
       hdrOpenKnown == ~e.hdr_ok /\ BreaksNames(p1)
-      hdenOk == e.hdr_ok /\ e.hdr_scan_ok /\ MEq(hm, p1)
+      hdenOk == e.hdr_ok /\ e.hdr_scan_ok /\ Same(hm, p1)
       hdenDs == IF hdenOk \/ ~e.hdr_ok \/ ~e.hdr_scan_ok THEN {} ELSE ExplainM(hm, p1)
-      hsameOk == e.hdr_ok /\ MEq(e.proj_hdr, p1)
+      hsameOk == e.hdr_ok /\ Same(e.proj_hdr, p1)
       hsameDs == IF hsameOk \/ ~e.hdr_ok THEN {} ELSE ExplainM(e.proj_hdr, p1)
       \* (e) the parser read text1 as the reference reader does
-      readOk == MEq(m1, p1)
-      readDs == IF readOk THEN {} ELSE {D \in DevSets : DECDUP \in D /\ MEq(m1, Dev({DECDUP}, p1))}
+      readOk == Same(m1, p1)
       fail ==
         If(e.scan2_ok, "C10:output-not-json")
         \cup If(~e.scan2_ok \/ dupOk \/ dupKnown, "C10:duplicate-keys")
@@ -102,17 +102,16 @@ Judge(e) ==
         \cup If(e.hdr_ok \/ hdrOpenKnown, "C10:header-unreadable")
         \cup If(~e.hdr_ok \/ (e.hdr_scan_ok /\ (hdenOk \/ hdenDs # {})), "C10:header-json-denotes-other-schema")
         \cup If(~e.hdr_ok \/ hsameOk \/ hsameDs # {}, "C10:header-schema-differs")
-        \cup If(readOk \/ grey \/ readDs # {}, "C10:parsed-meaning-differs")
+        \cup If(readOk \/ grey, "C10:parsed-meaning-differs")
       known ==
         (IF dupKnown THEN {DECDUP \o "|C10:duplicate-keys"} ELSE {})
         \cup Tags(denDs, "C10:json-denotes-other-schema")
         \cup (IF reKnown THEN {NULLNS \o "|C10:output-not-accepted"} ELSE {})
         \cup Tags(sameDs, "C10:reparsed-schema-differs")
-        \cup (IF textKnown THEN Tags(sameDs, "C10:text-not-stable") ELSE {})
+        \cup (IF textKnown THEN (IF sameDs # {} THEN Tags(sameDs, "C10:text-not-stable") ELSE {DECDUP \o "|C10:text-not-stable"}) ELSE {})
         \cup (IF hdrOpenKnown THEN {NULLNS \o "|C10:header-unreadable"} ELSE {})
         \cup Tags(hdenDs, "C10:header-json-denotes-other-schema")
         \cup Tags(hsameDs, "C10:header-schema-differs")
-        \cup Tags(readDs, "C10:parsed-meaning-differs")
       drift ==
         (IF ~readOk /\ grey THEN {"grey:attributes-on-primitive-or-ignored-logical-type"} ELSE {})
         \cup If(~e.hdr_ok \/ e.hdr_text_same, "header-json-differs-from-to_string")
